@@ -2,17 +2,28 @@
   MongoModel.Project — projection, followed line by line, quirks included.
 
   find path (mongomock/collection.py):
-    `_copy_only_fields`               1167-1218
-    `helpers.fields_list_to_dict`     helpers.py 170-184
-    `_extract_projection_operators`   1088-1102
+    `_copy_only_fields`               1202-1261
+    `helpers.fields_list_to_dict`     helpers.py 173-187
+    `_extract_projection_operators`   1120-1134
     `_combine_projection_spec`        186-219
-    `_project_by_spec`                222-241
-    `_apply_projection_operators`     1104-1165
+    `_refuse_positional_projection`   222-226
+    `_project_by_spec`                229-247
+    `_project_array_by_spec`          250-268
+    `_apply_projection_operators`     1136-1200
     `_get_dataset` / `find` / `find_one` (selection, then projection of each selected document)
   aggregate path (mongomock/aggregate.py), plain inclusion / exclusion specifications only:
-    `_handle_project_stage`           1488-1538
+    `_handle_project_stage`           1517-1567
     `_combine_projection_spec`        1425-1456
-    `_project_by_spec`                1459-1483
+    `_project_by_spec`                1459-1479
+    `_project_array_by_spec`          1482-1496
+
+  The model follows the library after the repairs of the C12 findings (known_findings.json:
+  slicelimit, sliceskip, exclscalar, mixedarray, aggdroparr, slicealone): a `[skip, limit]`
+  `$slice` refuses `limit <= 0` and clamps a far negative skip to the first element; a dotted
+  path that runs into a scalar keeps it on exclusion; the items of a descended array are
+  projected when they are documents, walked when they are arrays, and otherwise left out by an
+  inclusion and kept by an exclusion (both paths); a projection made only of `$slice` fields
+  starts from the whole document.
 
   `_copy_field` is a deep copy; values are immutable here, so it is the identity.
 
@@ -115,31 +126,22 @@ def maxLen : Items → Nat
 
 def combineSpec (agg : Bool) (items : Items) : R PSpec := combine agg (maxLen items + 1) items
 
-/-! ### find path: `_project_by_spec` (collection.py:222-241) -/
+/-! ### find path: `_project_by_spec` / `_project_array_by_spec` (collection.py:222-268) -/
 
-/-- the guard at the top of `_project_by_spec` -/
+/-- `_refuse_positional_projection`: the guard at the top of `_project_by_spec` and of
+    `_project_array_by_spec` -/
 def positionalGuard (cs : PSpec) (incl : Bool) : R Unit :=
   if thas "$" cs then .error (if incl then .notImpl else .opFail) else .ok ()
 
 mutual
-  /-- `_project_by_spec(x, spec, …)` for an arbitrary `x` (an array element may be anything:
-      `x.items()` raises `AttributeError` unless `x` is a dict) -/
-  def fpVal : Val → PSpec → Bool → R Val
-    | .doc fs, cs, incl => do
-      positionalGuard cs incl
-      let o ← fpFields fs cs incl
-      pure (.doc o)
-    | _, cs, incl => do
-      positionalGuard cs incl
-      .error .attrErr
-  termination_by structural x _ _ => x
-
-  /-- the loop over `doc.items()` -/
+  /-- `_project_by_spec(doc, spec, …)`: the loop over `doc.items()`.  Every caller has checked
+      `positionalGuard` on `cs` (`_refuse_positional_projection` at the top of the function) -/
   def fpFields : Fields → PSpec → Bool → R Fields
     | [], _, _ => .ok []
     | (k, .arr xs) :: rest, cs, incl =>
       match tget k cs with
       | some (.node sub) => do
+        positionalGuard sub incl               -- at the top of `_project_array_by_spec`
         let ys ← fpList xs sub incl
         let r ← fpFields rest cs incl
         pure ((k, .arr ys) :: r)
@@ -164,7 +166,9 @@ mutual
         pure (if incl then r else (k, .doc fs) :: r)
     | (k, v) :: rest, cs, incl =>
       match tget k cs with
-      | some (.node _) => fpFields rest cs incl          -- neither list nor dict: not copied
+      | some (.node _) => do                   -- neither list nor dict: kept by an exclusion only
+        let r ← fpFields rest cs incl
+        pure (if incl then r else (k, v) :: r)
       | some (.leaf _) => do
         let r ← fpFields rest cs incl
         pure (if incl then (k, v) :: r else r)
@@ -173,17 +177,31 @@ mutual
         pure (if incl then r else (k, v) :: r)
   termination_by structural x _ _ => x
 
-  /-- `[_project_by_spec(sub_doc, spec, …) for sub_doc in val]` -/
+  /-- one item of the loop of `_project_array_by_spec(values, spec, …)`: a document is projected
+      by the specification, a nested array item by item, anything else is kept by an exclusion
+      only (`none`: nothing appended).  The guard at the top of the two Python functions has
+      already passed for this very `cs` when an item is reached, so it is not evaluated again. -/
+  def fpVal : Val → PSpec → Bool → R (Option Val)
+    | .doc fs, cs, incl => do
+      let o ← fpFields fs cs incl
+      pure (some (.doc o))
+    | .arr zs, cs, incl => do
+      let o ← fpList zs cs incl
+      pure (some (.arr o))
+    | v, _, incl => .ok (if incl then none else some v)
+  termination_by structural x _ _ => x
+
+  /-- the loop of `_project_array_by_spec` -/
   def fpList : List Val → PSpec → Bool → R (List Val)
     | [], _, _ => .ok []
     | x :: xs, cs, incl => do
       let y ← fpVal x cs incl
       let ys ← fpList xs cs incl
-      pure (y :: ys)
+      pure (match y with | some y => y :: ys | none => ys)
   termination_by structural x _ _ => x
 end
 
-/-! ### projection operators (collection.py:1088-1165) -/
+/-! ### projection operators (collection.py:1120-1200) -/
 
 def allowedProjectionOperators : List String := ["$elemMatch", "$slice"]
 
@@ -213,17 +231,28 @@ def asPyInt : Val → Option Int
   | .bool b => some (if b then 1 else 0)
   | _ => none
 
+/-- `limit <= 0` for an arbitrary Python value (`none`: the comparison raises `TypeError`) -/
+def nonPositive : Val → Option Bool
+  | .int i => some (decide (i ≤ 0))
+  | .bool b => some (!b)
+  | .dbl m _ => some (decide (m ≤ 0))
+  | _ => none
+
 /-- the `$slice` branch of `_apply_projection_operators` on the list `xs` -/
 def sliceOp (sv : Val) (xs : List Val) : R (List Val) :=
   let n : Int := xs.length
   match sv with
   | .arr [s, l] =>
-    match asPyInt s, asPyInt l with
-    | some skip, some limit =>
-      let skip := if skip < 0 then n + skip else skip
-      let last := if skip + limit < n then skip + limit else n
-      .ok (projSlice xs skip last)
-    | _, _ => .error .typeErr
+    match nonPositive l with
+    | none => .error .typeErr
+    | some true => .error .opFail              -- "$slice limit must be positive"
+    | some false =>
+      match asPyInt s, asPyInt l with
+      | some skip, some limit =>
+        let skip := if skip < 0 then (if n + skip < 0 then 0 else n + skip) else skip
+        let last := if skip + limit < n then skip + limit else n
+        .ok (projSlice xs skip last)
+      | _, _ => .error .typeErr
   | .arr _ => .error .opFail
   | sv =>
     match asPyInt sv with
@@ -273,7 +302,7 @@ def applyProjOps (doc : Fields) : Fields → Fields → R Fields
     applyProjOps doc r dc'
   | _ :: _, _ => unmodelled          -- cannot arise: `extractOps` returns dict values only
 
-/-! ### `_copy_only_fields` (collection.py:1167-1218) -/
+/-! ### `_copy_only_fields` (collection.py:1202-1261) -/
 
 /-- `helpers.fields_list_to_dict` -/
 def fieldsListToDict : List Val → Fields → R Fields
@@ -294,13 +323,21 @@ def attachId (doc dc : Fields) : Fields :=
   | some v => dset "_id" v dc
   | none => dc
 
-/-- `_copy_only_fields` between the extraction of the operator fields and their application
-    (collection.py:1186-1210): mode check, the copy by the plain fields, `_id` re-attached -/
-def baseCopy (doc plain : Fields) (idv : Val) : R Fields := do
+/-- `bool(projection_operators) and all(list(op) == ['$slice'] for op in ….values())` -/
+def onlySlices (ops : Fields) : Bool :=
+  !ops.isEmpty && ops.all (fun kv => match kv.2 with
+    | .doc op => dkeys op == ["$slice"]
+    | _ => false)
+
+/-- `_copy_only_fields` between the extraction of the operator fields and their application:
+    mode check, the copy by the plain fields, `_id` re-attached.  `keepAll` is
+    `not id_given and only_slices`: without plain fields, a projection made of `$slice` fields
+    only (and no `_id` entry) starts from the whole document -/
+def baseCopy (doc plain : Fields) (idv : Val) (keepAll : Bool) : R Fields := do
   if (← mixedValues (plain.map (·.2))) then .error .valueErr
   else do
     let dc ← (match plain with
-      | [] => pure (if pyEq idv (.int 1) then [] else doc)
+      | [] => pure (if pyEq idv (.int 1) && !keepAll then [] else doc)
       | (_, v0) :: _ => do
         let cs ← combineSpec false (itemsOf plain)
         positionalGuard cs v0.truthy
@@ -311,7 +348,7 @@ def baseCopy (doc plain : Fields) (idv : Val) : R Fields := do
 def copyWithDict (doc : Fields) (fields : Fields) : R Fields := do
   let idv := (dget "_id" fields).getD (.int 1)
   let (ops, plain) ← extractOps (derase "_id" fields)
-  let dc ← baseCopy doc plain idv
+  let dc ← baseCopy doc plain idv (!(dhas "_id" fields) && onlySlices ops)
   applyProjOps doc ops dc
 
 /-- `Collection._copy_only_fields(doc, fields, dict)`; `fields = None` is `.null`.  The code works
@@ -351,20 +388,15 @@ def findProject (filter proj : Val) (docs : List Val) : R (List Val) :=
   | _ => findLoop filter proj docs
 
 /-- `collection.find_one(filter, projection)`: `next(find(...))`; the cursor computes the whole
-    result list before handing out its first element (collection.py:1894-1903), so an error on
+    result list before handing out its first element (collection.py:1945-1954), so an error on
     any selected document surfaces -/
 def findOneProject (filter proj : Val) (docs : List Val) : R (Option Val) :=
   (findProject filter proj docs).map List.head?
 
-/-! ### aggregate path: `$project` with plain inclusion / exclusion (aggregate.py:1425-1538) -/
+/-! ### aggregate path: `$project` with plain inclusion / exclusion (aggregate.py:1425-1567) -/
 
 mutual
-  /-- `_project_by_spec` of aggregate.py on an array element: non-dicts are filtered out -/
-  def apVal : Val → PSpec → Bool → Option Val
-    | .doc fs, cs, incl => some (.doc (apFields fs cs incl))
-    | _, _, _ => none
-  termination_by structural x _ _ => x
-
+  /-- `_project_by_spec` of aggregate.py -/
   def apFields : Fields → PSpec → Bool → Fields
     | [], _, _ => []
     | (k, .doc fs) :: rest, cs, incl =>
@@ -382,6 +414,15 @@ mutual
       | none => if incl then apFields rest cs incl else (k, v) :: apFields rest cs incl
       | some (.leaf _) => if incl then (k, v) :: apFields rest cs incl else apFields rest cs incl
       | some (.node _) => if incl then apFields rest cs incl else (k, v) :: apFields rest cs incl
+  termination_by structural x _ _ => x
+
+  /-- one item of the loop of `_project_array_by_spec` of aggregate.py: a document is projected
+      by the specification, a nested array item by item, anything else is kept by an exclusion
+      only (`none`: nothing appended) -/
+  def apVal : Val → PSpec → Bool → Option Val
+    | .doc fs, cs, incl => some (.doc (apFields fs cs incl))
+    | .arr zs, cs, incl => some (.arr (apList zs cs incl))
+    | v, _, incl => if incl then none else some v
   termination_by structural x _ _ => x
 
   def apList : List Val → PSpec → Bool → List Val
@@ -418,7 +459,7 @@ def aggScan : Fields → PMethod → List String → R (PMethod × List String)
       | .ok m' => aggScan r m' (if field != "_id" then acc ++ [field] else acc)
 
 /-- the filter list of `_handle_project_stage` once `_id` has been dealt with
-    (aggregate.py:1520-1521): `include_id = options.get('_id')` is `None` when absent, and
+    (aggregate.py:1547-1549): `include_id = options.get('_id')` is `None` when absent, and
     `None is not False and None != 0` holds, exactly as for the default `1` used here -/
 def aggFilterList (options : Fields) : R (PMethod × List String) := do
   let (m, fl) ← aggScan options .unset []
